@@ -23,7 +23,7 @@ use crate::{
     membe::{Storage, id_bytes},
     model::{FlatKind, MNode, ReadSchedule, flatten},
     repo::{
-        ChunkerCfg, CmpOpts, RepoCfg, backup_tree, check_repo, compare, estr, force_opts, init_repo,
+        ChunkerCfg, CmpOpts, RepoCfg, backup_tree, check_repo, compare, force_opts, init_repo,
         open_full, open_ids, read_snapshot, repo_cfg, show_path, snap_template,
     },
 };
